@@ -341,7 +341,7 @@ func runC19(w *World, r *Report) {
 			if fn.Parent() != nil {
 				continue
 			}
-			n := strings.ToLower(fn.Name())
+			n := strings.ToLower(refName(fn))
 			isCoder := n == "encode" || n == "decode" || strings.HasPrefix(n, "decode") && pk != "gossip" || strings.HasPrefix(n, "encode") && pk != "gossip" ||
 				fn.Name() == "mapAccountantVertexToProtoVertex" || fn.Name() == "mapProtoVertexToAccountantVertex" || fn.Name() == "TrxToProtoTrx" || fn.Name() == "ProtoTrxToTrx"
 			if isCoder {
